@@ -33,6 +33,7 @@ import (
 	"path/filepath"
 	"regexp"
 	"runtime"
+	"runtime/pprof"
 	"sort"
 	"strings"
 	"sync"
@@ -56,6 +57,9 @@ var ctx = context.Background()
 
 // the horizon: the largest corpus execution needs ~1e5 ticks and ~2500 steps
 var cfg = vrt.Config{Diag: true, MaxTicks: 3000000, MaxSteps: 60000}
+
+// the lexer alone, on texts of a few tokens
+var guardCfg = vrt.Config{Diag: true, MaxTicks: 100000, MaxSteps: 5000}
 
 // Case is one replayable execution.
 type Case struct {
@@ -106,6 +110,13 @@ type callResult struct {
 // mk is the factory of fresh executions of one case.
 func mk(c Case) func() explore.Exec {
 	return func() explore.Exec {
+		ex, _ := newExec(c)
+		return ex
+	}
+}
+
+func newExec(c Case) (explore.Exec, *callResult) {
+	{
 		res := &callResult{}
 		return explore.Exec{
 			Body: func() {
@@ -115,7 +126,7 @@ func mk(c Case) func() explore.Exec {
 				vrt.MarkReturned() // from here on a parked thread is a leak, not a deadlock
 			},
 			Check: func(out *vrt.Outcome) ([]explore.Verdict, string) { return judge(c, res, out) },
-		}
+		}, res
 	}
 }
 
@@ -299,6 +310,8 @@ type probeResult struct {
 	left     int
 	first    lexer.TokenType
 	kinds    map[lexer.TokenType]bool
+	// some PREDICATE_BOUND token takes a limit from a binding ("p"@[?lo,?hi])
+	boundFromBinding bool
 }
 
 var (
@@ -324,6 +337,9 @@ func probe(text string) *probeResult {
 		// kinds of the whole text, from a second lexer run
 		for t := range vrt.Range(lexer.New(text, 0)) {
 			pr.kinds[t.Type] = true
+			if t.Type == lexer.ItemPredicateBound && strings.Contains(t.Text, "?") {
+				pr.boundFromBinding = true
+			}
 		}
 		err := probeParser.Parse(llk, &semantic.Statement{})
 		pr.accepted = err == nil
@@ -377,6 +393,9 @@ func classOf(c Case) string {
 			fs = append(fs, f.name)
 		}
 	}
+	if p.boundFromBinding {
+		fs = append(fs, "time-bound-from-binding")
+	}
 	if c.ChanSize != 0 || c.BulkSize != 1 {
 		fs = append(fs, fmt.Sprintf("chanSize:%d", c.ChanSize), fmt.Sprintf("bulkSize:%d", c.BulkSize))
 	}
@@ -412,22 +431,24 @@ type failOut struct {
 }
 
 type chunkOut struct {
-	Space      string         `json:"space"`
-	Chunk      int            `json:"chunk"`
-	Cases      int            `json:"cases"`
-	Execs      int            `json:"execs"`
-	Stages     map[string]int `json:"stages"`   // table | parse-error | plan-error | execute-error | <status>
-	Statuses   map[string]int `json:"statuses"` // ok | panic | deadlock | leak | horizon
-	Outcomes   map[string]int `json:"outcomes"`
-	PerStore   map[string]int `json:"per_store"`
-	Threads    map[int]int    `json:"threads"`
-	MaxSteps   int            `json:"max_steps"`
-	MaxTicks   int            `json:"max_ticks"`
-	MaxThreads int            `json:"max_threads"`
-	TotalSteps int64          `json:"total_steps"`
-	HB         []uint64       `json:"hb"`
-	HBTrunc    bool           `json:"hb_truncated"`
-	Fails      []failOut      `json:"fails"`
+	Space string `json:"space"`
+	Chunk int    `json:"chunk"`
+	Cases int    `json:"cases"`
+	Execs int    `json:"execs"`
+	// store / size variants not executed because the parser rejected the text
+	VariantsSkipped int            `json:"variants_skipped"`
+	Stages          map[string]int `json:"stages"`   // table | parse-error | plan-error | execute-error | <status>
+	Statuses        map[string]int `json:"statuses"` // ok | panic | deadlock | leak | horizon
+	Outcomes        map[string]int `json:"outcomes"`
+	PerStore        map[string]int `json:"per_store"`
+	Threads         map[int]int    `json:"threads"`
+	MaxSteps        int            `json:"max_steps"`
+	MaxTicks        int            `json:"max_ticks"`
+	MaxThreads      int            `json:"max_threads"`
+	TotalSteps      int64          `json:"total_steps"`
+	HB              []uint64       `json:"hb"`
+	HBTrunc         bool           `json:"hb_truncated"`
+	Fails           []failOut      `json:"fails"`
 	// deviation bound 1 on the systematic subset
 	B1Cases     int            `json:"b1_cases"`
 	B1Execs     int            `json:"b1_execs"`
@@ -448,7 +469,13 @@ func serveWorker() {
 		fmt.Fprintf(os.Stderr, "c08 worker: bad job: %v\n", err)
 		os.Exit(2)
 	}
+	if pf := os.Getenv("C08_CPUPROFILE"); pf != "" {
+		f, _ := os.Create(pf)
+		pprof.StartCPUProfile(f)
+		defer pprof.StopCPUProfile()
+	}
 	o := runJob(&j)
+	pprof.StopCPUProfile()
 	b, _ := json.Marshal(o)
 	os.Stdout.Write(b)
 	os.Exit(0)
@@ -477,12 +504,24 @@ func runJob(j *job) *chunkOut {
 			break
 		}
 		o.Cases++
+		rejectedByParser := false
 		for si, store := range j.Stores {
 			for ci, cf := range j.Configs {
+				if rejectedByParser {
+					// run.BQL returned from its parse branch: the store and the sizes were never
+					// read, the remaining variants of this text are the same execution
+					o.VariantsSkipped++
+					continue
+				}
 				c := Case{Space: j.Space, Origin: gc.Origin, Text: gc.Text, Store: store, ChanSize: cf[0], BulkSize: cf[1]}
-				ex := mk(c)()
+				ex, cres := newExec(c)
 				out := vrt.Run(cfg, vrt.DefaultChooser{}, ex.Body)
 				vs, oc := ex.Check(out)
+				if cres.returned && cres.err != nil {
+					if st, _ := stageOf(cres.err); st == "parse-error" {
+						rejectedByParser = true
+					}
+				}
 				o.Execs++
 				o.PerStore[store]++
 				o.Statuses[string(out.Status)]++
@@ -607,7 +646,7 @@ func runJobs(jobs []*job, par int) ([]*chunkOut, error) {
 			}
 			in, _ := json.Marshal(jobs[i])
 			cmd := exec.Command(exe)
-			cmd.Env = append(os.Environ(), "C08_WORKER=1", "GOMAXPROCS=2")
+			cmd.Env = append(os.Environ(), "C08_WORKER=1", "GOMAXPROCS=1")
 			cmd.Stdin = bytes.NewReader(in)
 			var out, eb bytes.Buffer
 			cmd.Stdout, cmd.Stderr = &out, &eb
@@ -655,7 +694,7 @@ func lexerGuard(r *common.Run, kinds []recog.Kind) bool {
 	try := func(text, what string) {
 		n++
 		toks := 0
-		out := vrt.Run(cfg, vrt.DefaultChooser{}, func() {
+		out := vrt.Run(guardCfg, vrt.DefaultChooser{}, func() {
 			for range vrt.Range(lexer.New(text, 0)) {
 				toks++
 			}
@@ -680,6 +719,15 @@ func lexerGuard(r *common.Run, kinds []recog.Kind) bool {
 	for _, c := range corpus {
 		try(c, "corpus")
 	}
+	// non-canonical lexemes: the edits of corpus.go and every string of length <= 2 over the S3 alphabet
+	for _, k := range kinds {
+		for _, e := range lexemeEdits[k] {
+			try(e, "lexeme-edit")
+		}
+	}
+	for _, c := range genS3(2).cases {
+		try(c.Text, "short-bytes")
+	}
 	r.Set("lexer_guard_texts", n)
 	return ok
 }
@@ -698,7 +746,7 @@ func main() {
 			return false, "case does not parse: " + err.Error()
 		}
 		if c.Space == "S0" {
-			out := vrt.Run(cfg, vrt.DefaultChooser{}, func() {
+			out := vrt.Run(guardCfg, vrt.DefaultChooser{}, func() {
 				for range vrt.Range(lexer.New(c.Text, 0)) {
 				}
 			})
@@ -735,7 +783,7 @@ func main() {
 	}
 	r.Set("token_kinds", len(kinds))
 
-	budget := time.Duration(r.Pick(130, 1020)) * time.Second
+	budget := time.Duration(r.Pick(150, 1020)) * time.Second
 	if s := os.Getenv("C08_BUDGET_S"); s != "" {
 		var v int
 		fmt.Sscan(s, &v)
@@ -756,8 +804,8 @@ func main() {
 	}
 
 	// ---- generate the spaces
-	maxPrefix := r.Pick(7, 9)
-	sentLen, mutLen, editLen := r.Pick(14, 15), r.Pick(12, 14), r.Pick(13, 15)
+	maxPrefix := r.Pick(6, 9)
+	sentLen, mutLen, editLen := r.Pick(14, 15), r.Pick(12, 13), r.Pick(13, 15)
 	s3Len := r.Pick(3, 4)
 	k := r.Pick(101, 53)
 	if s := os.Getenv("C08_PARAMS"); s != "" { // maxPrefix,sentLen,mutLen,editLen,s3Len,k (trial runs)
@@ -779,12 +827,12 @@ func main() {
 	}
 	plans := []*spacePlan{
 		{gen: s4, stores: storeKinds, configs: allCfg, k: 1, b1def: !r.Thorough(), what: fmt.Sprintf("corpus of %d valid statements of every kind x chanSize {0,1,3} x bulkSize {0,1,1000}", len(corpus))},
+		{gen: s5, stores: storeKinds, configs: def, k: k, what: "every single-token mutant (delete, duplicate, truncate, replace by the canonical lexeme of each kind) and every fitting lexeme edit of every corpus statement"},
 		{gen: s3, stores: storeKinds, configs: def, k: k, what: fmt.Sprintf("every byte string of length <= %d over %q", s3Len, s3Alphabet)},
-		{gen: s1, stores: storeKinds, configs: def, k: k, what: fmt.Sprintf("every token sequence of length <= 3 over the %d kinds; every viable grammar prefix of length <= %d extended by each kind, with and without a closing ';'", len(kinds), maxPrefix),
-			extra: map[string]interface{}{"viable_prefix_levels": s1levels}},
 		{gen: s2, stores: storeKinds, configs: def, k: k, what: fmt.Sprintf("every grammar sentence of <= %d tokens (canonical lexemes, and once with distinct bindings); every single-token mutant (delete, duplicate, truncate, replace by each other kind) of those of <= %d tokens; every fixed lexeme edit at every fitting position of those of <= %d tokens", sentLen, mutLen, editLen),
 			extra: map[string]interface{}{"sentence_stats": s2stats}},
-		{gen: s5, stores: storeKinds, configs: def, k: k, what: "every single-token mutant (delete, duplicate, truncate, replace by the canonical lexeme of each kind) and every fitting lexeme edit of every corpus statement"},
+		{gen: s1, stores: storeKinds, configs: def, k: k, what: fmt.Sprintf("every token sequence of length <= 3 over the %d kinds; every viable grammar prefix of length <= %d extended by each kind, with and without a closing ';'", len(kinds), maxPrefix),
+			extra: map[string]interface{}{"viable_prefix_levels": s1levels}},
 	}
 	if only := os.Getenv("C08_ONLY"); only != "" { // trial runs: a subset of the spaces
 		var ps []*spacePlan
@@ -805,12 +853,16 @@ func main() {
 	var jobs []*job
 	for _, p := range plans {
 		n := len(p.gen.cases)
-		size := n/(par*6) + 1
-		if size > 6000 {
-			size = 6000
+		// few, large chunks: a worker process costs up to a second on a loaded machine
+		size := n/(par*3) + 1
+		if size < 1500 {
+			size = 1500
+		}
+		if size > 12000 {
+			size = 12000
 		}
 		if p.gen.name == "S4" {
-			size = 1
+			size = 2 // the corpus executions are the largest ones (up to 70 threads, x 27 variants, all explored)
 		}
 		for lo, ch := 0, 0; lo < n; lo, ch = lo+size, ch+1 {
 			hi := lo + size
@@ -838,6 +890,7 @@ func main() {
 		Stores           []string               `json:"stores"`
 		Configs          [][2]int               `json:"chan_size_bulk_size"`
 		Execs            int                    `json:"executions"`
+		VariantsSkipped  int                    `json:"store_and_size_variants_not_executed_because_the_parser_rejected_the_text"`
 		Returned         map[string]int         `json:"executions_by_result"`
 		Statuses         map[string]int         `json:"executions_by_status"`
 		DistinctOutcomes int                    `json:"distinct_outcomes"`
@@ -888,6 +941,7 @@ func main() {
 		sr := reps[o.Space]
 		sr.CasesRun += o.Cases
 		sr.Execs += o.Execs
+		sr.VariantsSkipped += o.VariantsSkipped
 		for k2, v := range o.Stages {
 			sr.Returned[k2] += v
 		}
@@ -996,7 +1050,8 @@ func main() {
 		}
 		return ocs[a].O < ocs[b].O
 	})
-	r.Set("distinct_outcomes", len(ocs))
+	distinctOutcomes := len(ocs)
+	r.Set("distinct_outcomes", distinctOutcomes)
 	if len(ocs) > 60 {
 		ocs = ocs[:60]
 	}
@@ -1005,7 +1060,7 @@ func main() {
 	r.Set("transitions", int(totalSteps))
 	r.Set("traces_validated_against_impl", totalExecs+totalB1)
 	r.Set("evaluations", totalExecs+totalB1)
-	r.Set("distinct_nontrivial", len(ocs))
+	r.Set("distinct_nontrivial", distinctOutcomes)
 	r.Set("rule", "case = (statement text, store in {empty, graphs exist but empty, populated}, chanSize, bulkSize); one controlled execution of run.BQL per case on the default schedule, plus every schedule with at most one deviation for every K-th execution of a space (K per space in spaces[].bound1_every_kth_execution); texts are enumerated exhaustively per space (spaces[].what) and de-duplicated; states = distinct happens-before partial orders among the default-schedule executions, transitions = scheduled operations, distinct_nontrivial = distinct outcomes (result stage + constant part of the error message, or table shape, or oracle verdict)")
 	if b, err := os.ReadFile(filepath.Join(common.Root(), instrDir(), "inventory.json")); err == nil {
 		var inv map[string]interface{}
